@@ -197,6 +197,20 @@ def run(rng, tier, model_ok):
                         "key": "unit-value:%s" % word if word in known_bad else None}
             return None
         items.append((q, o))
+    # ---- a word means the same whatever it is cast to: every unit against a representative of every dimension
+    for q, na, nt in unitlib.cast_matrix(V, rng, tier):
+        def co(reply, na=na, nt=nt, q=q):
+            comm = V.dims(na) == V.dims(nt)
+            v = pipeline.single_value(reply)
+            if not comm:
+                return None if v is None else {"why": "inside this cast the word is read as something of another dimension: its own dimensions are %s, "
+                                                      "the target's %s" % (V.dims(na), V.dims(nt))}
+            x = int(q.split(" ")[0])
+            if v is None or V.si(v[0], v[1], v[2]) != x * V.scale(na):
+                return {"why": "inside this cast the word does not have the scale it has alone (%s)" % V.scale(na)}
+            return None
+        items.append((q, co))
+    stats["cast_matrix"] = stats.get("cast_matrix", 0) + 1
     # ---- unit expressions: juxtaposition, *, blanks multiply; / inverts everything after it; ^n applies to the unit it follows
     nexpr = 300 if tier == "quick" else 5000
     exprs = []
